@@ -50,7 +50,8 @@ type GlobalNode struct {
 }
 
 func (gn *GlobalNode) UpdateConfig(cfg *config.StringMap) (err error) {
-	for key, value := range cfg.Fields {
+	for _, key := range config.SortedKeys(cfg.Fields) {
+		value := cfg.Fields[key]
 		switch key {
 		case MinMintAmount:
 			amount, err := strconv.ParseFloat(value, 64)
